@@ -148,7 +148,7 @@ class Database(ImpExp):
             return
 
         if len(path) == 1:
-            self.db.__delitem__(path[0])
+            self.delete_sub_tree(path[0])
             return
 
         # start at leaf and work our way upwards
